@@ -1,6 +1,7 @@
 import IndicatifModel.Model.Limiter
 import IndicatifModel.Model.World
 import IndicatifModel.Model.Multi
+import IndicatifModel.Model.Rows
 import IndicatifModel.Model.Position
 import IndicatifModel.Model.Template
 import IndicatifModel.Model.Locks
@@ -147,6 +148,26 @@ def runMULTI (rest : String) : String :=
         let w := w0.run mops
         s!"calls={w.calls} panicked={w.panicked} " ++ " ; ".intercalate (w.snaps.map showSnap)
       | _, _, _, _, _ => "bad-op"
+    | _ => "bad-op"
+  | _ => "bad-op"
+
+/-- `ROWS W H HZ T0 ; op ; op …` → the row-level model's screen after every painted draw -/
+def runROWS (rest : String) : String :=
+  match rest.splitOn ";" with
+  | hdr :: ops =>
+    match (hdr.trimAscii.toString.splitOn " ").filter (· ≠ "") with
+    | [_, _, _, hz, t0] =>
+      match hz.toNat?, t0.toNat?, ops.mapM parseMOp with
+      | some HZ, some T0, some mops =>
+        let lim := if HZ = 0 then none else
+          some (Limiter.drawCfg Limiter.LFix.current HZ, ({ cap := 20, prev := T0 } : Limiter.St))
+        let w := Rows.run { limiter := lim, now := T0 } mops
+        let showRow (r : Rows.Row) : String :=
+          ".".intercalate ((((r.filter (·.w ≠ 0)).map (·.cp)).reverse.dropWhile (· == 32)).reverse.map toString)
+        let showScr (rows : List Rows.Row) : String :=
+          "|".intercalate (((rows.map showRow).reverse.dropWhile (· == "")).reverse)
+        s!"panicked={w.panicked} " ++ " ; ".intercalate (w.frames.map showScr)
+      | _, _, _ => "bad-op"
     | _ => "bad-op"
   | _ => "bad-op"
 
@@ -402,6 +423,7 @@ def handle (line : String) : String :=
   | "C07" :: _ => runC07 ((line.trimAscii.toString.drop 4).toString)
   | "BAR" :: _ => runBAR ((line.trimAscii.toString.drop 4).toString)
   | "MULTI" :: _ => runMULTI ((line.trimAscii.toString.drop 6).toString)
+  | "ROWS" :: _ => runROWS ((line.trimAscii.toString.drop 5).toString)
   | _ => "bad-op"
 
 partial def loop (h : IO.FS.Stream) : IO Unit := do
